@@ -733,3 +733,17 @@ M('c14-del-len-ge', 'C14', 'C14.R4', FUN, _DG, "        if key > -len(container)
 B('c14-del-two-sided-exact', 'C14', FUN, _DG, "        if -len(container) <= key < len(container):\n            del container[key]")
 B('c14-del-flipped', 'C14', FUN, _DG, "        if key < len(container):\n            del container[key]")
 B('c14-del-le-minus-one', 'C14', FUN, _DG, "        if key <= len(container) - 1:\n            del container[key]")
+
+# ---- round 3 of independently written changes
+P('C03-C', 'C03', 'C03.R4'); P('C03-D', 'C03', 'C03.R5')
+P('C04-C', 'C04', 'C04.R1'); P('C04-D', 'C04', 'C04.R3')
+P('C05-C', 'C05', 'C05.R3'); P('C05-D', 'C05', 'C05.R2')
+P('C06-C', 'C06', 'C06.R7'); P('C06-D', 'C06', 'C06.R8')
+P('C07-C', 'C17', 'C17.R5'); P('C07-D', 'C12', 'C12.R1')
+P('C08-C', 'C08', 'C08.R1'); P('C08-D', 'C08', 'C08.R2')
+P('C11-C', 'C11', 'C11.R2'); P('C11-D', 'C11', 'C11.R1')
+P('C14-C', 'C14', 'C14.R1'); P('C14-D', 'C07', 'C07.R1')
+P('C15-C', 'C15', 'C15.R1'); P('C15-D', 'C15', 'C15.R5')
+P('C18-C', 'C18', 'C18.R1'); P('C18-D', 'C18', 'C18.R4')
+P('C19-C', 'C19', 'C19.R1'); P('C19-D', 'C07', 'C07.R7')
+P('C20-C', 'C20', 'C20.R1'); P('C20-D', 'C20', 'C20.R2')
